@@ -107,9 +107,12 @@ def rand_format(rng, currencies, idx):
         kw["negative_style"] = rng.choice(NEG)
         if t == "currency":
             kw["currency_code"] = currencies[idx % len(currencies)] if rng.random() < .6 else rng.choice(["GBP", "USD", "EUR", "JPY", "CHF", "AUD", "KRW", "XOF"])
-            if rng.random() < .3:
+            k3 = rng.random()
+            if k3 < .3:
                 kw["use_accounting_style"] = True
                 kw["negative_style"] = "MINUS"
+            elif k3 < .5:
+                kw["use_accounting_style"] = False  # said explicitly: the negative style asked for stands
         v = rand_value(rng, 2 if (t == "currency" and places is None) else places)
         if t == "percentage" and abs(v) >= 1e13:
             v = v / 1000.0
